@@ -261,6 +261,11 @@ Inductive request :=
 | RootsReq (off len : nat)
     (lock_ok prices_ok sig_ok : bool)   (* single round: the request carries the renter's signature *)
     (u : usage)
+| FundReq (valid lock_ok sig_ok : bool) (amount : N)
+    (* RPCFundAccounts (server.go handleRPCFundAccounts): one round, the request carries the
+       renter's signature over the revision that moves [amount] from the renter output to the
+       host output; the account is credited with it; the roots are not mentioned
+       (Contractor.CreditAccountsWithContract takes no roots). [valid] = request validation. *)
 | AcctReq (valid has : bool) (cost : N).
     (* the account-paid RPCs RPCReadSector / RPCVerifySector / RPCWriteSector
        (server.go handleRPCReadSector, handleRPCVerifySector, handleRPCWriteSector):
@@ -371,6 +376,18 @@ Definition do_roots (h : host) (off len : nat) (lock_ok prices_ok sig_ok : bool)
         else Some (mk_host (h_roots h) r' (h_account h), ORootsResp (take len (drop off (h_roots h))))
     end.
 
+(** proto4.ReviseForFundAccounts + CreditAccountsWithContract: the revision pays [amount]
+    (no risked collateral), the account receives it, the roots stay *)
+Definition do_fund (h : host) (valid lock_ok sig_ok : bool) (amount : N) : option host :=
+  if negb valid then None
+  else if negb lock_ok then None
+  else
+    match pay (h_rev h) (mk_usage amount 0) with
+    | None => None
+    | Some r' => if negb sig_ok then None
+                 else Some (mk_host (h_roots h) r' (h_account h + amount))
+    end.
+
 (** the account-paid RPCs: validate, look the sector up, debit, deliver — in this order
     (server.go: Validate, HasSector, DebitAccount, ReadSector). Nothing but the account
     balance changes, and it changes only when the service is delivered. *)
@@ -413,6 +430,11 @@ Definition step (a : alias) (s : hst) (m : msg) : hst * list out :=
       | Some (h', o) => (mk_hst h' PClosed, [o])
       | None => (mk_hst h PClosed, [OErr])
       end
+  | PIdle, MReq (FundReq valid lk sg amount) =>
+      match do_fund h valid lk sg amount with
+      | Some h' => (mk_hst h' PClosed, [OHostSig])
+      | None => (mk_hst h PClosed, [OErr])
+      end
   | PIdle, MReq (AcctReq valid has cost) =>
       match do_acct h valid has cost with
       | Some h' => (mk_hst h' PClosed, [OPaid])
@@ -431,12 +453,31 @@ Definition step (a : alias) (s : hst) (m : msg) : hst * list out :=
     whatever point it had reached — the connection dropped, the renter stopped sending)
     or send the next message on the current stream. An abort is simply the absence of
     further messages. *)
-Inductive event := ENew | EMsg (m : msg).
+Inductive event :=
+| ENew
+| EMsg (m : msg)
+| EOther (r : request).
+    (* a request on ANOTHER stream (complete if the RPC has one round, abandoned after its first
+       message otherwise) while the current stream is where it
+       is: if the current handler holds the contract lock (it waits for the signature), every
+       contract RPC on the other stream is refused by LockV2Contract ("already locked"); the
+       account-paid RPCs do not take the lock. *)
 
 Definition step_ev (a : alias) (s : hst) (e : event) : hst :=
   match e with
   | ENew => mk_hst (hs_host s) PIdle
   | EMsg m => fst (step a s m)
+  | EOther r =>
+      match hs_phase s, r with
+      | PWait p, AcctReq valid has cost =>
+          match do_acct (hs_host s) valid has cost with
+          | Some h' => mk_hst h' (PWait p)
+          | None => s
+          end
+      | PWait _, _ => s                                   (* contract locked: refused *)
+      | _, _ =>                                           (* no lock held: an ordinary stream *)
+          mk_hst (hs_host (fst (step a (mk_hst (hs_host s) PIdle) (MReq r)))) (hs_phase s)
+      end
   end.
 
 Definition init (h : host) : hst := mk_hst h PClosed.
@@ -448,6 +489,7 @@ Fixpoint exec_outs (a : alias) (s : hst) (evs : list event) (acc : list out) : h
   | [] => (s, acc)
   | ENew :: evs' => exec_outs a (mk_hst (hs_host s) PIdle) evs' []
   | EMsg m :: evs' => let '(s', o) := step a s m in exec_outs a s' evs' (acc ++ o)
+  | EOther r :: evs' => exec_outs a (step_ev a s (EOther r)) evs' acc
   end.
 
 (** ** The property's state predicate *)
@@ -459,6 +501,14 @@ Definition committed_ok (h : host) : Prop :=
 Definition fresh_host (funds hostval missed acct : N) : host :=
   mk_host [] (mk_rev 0 (mroot []) 0 0 funds hostval missed) acct.
 
+(** proto4.RenewContract + Contractor.RenewV2Contract (testutil/host.go RenewV2Contract): the
+    renewal is a new contract at revision 0 that commits to the file of the renewed one
+    (capacity = file size) and stores a copy of its roots; the account is untouched. *)
+Definition renew (h : host) (funds hostval missed : N) : host :=
+  mk_host (h_roots h)
+    (mk_rev 0 (r_root (h_rev h)) (r_size (h_rev h)) (r_size (h_rev h)) funds hostval missed)
+    (h_account h).
+
 (** the only events that can change the contractor's state: a valid renter signature, or
     a valid account-paid request for a sector the host has *)
 Definition may_commit (e : event) : Prop :=
@@ -466,5 +516,9 @@ Definition may_commit (e : event) : Prop :=
   | EMsg (MSig true) => True
   | EMsg (MReq (RootsReq _ _ _ _ true _)) => True
   | EMsg (MReq (AcctReq true true _)) => True
+  | EMsg (MReq (FundReq true true true _)) => True
+  | EOther (RootsReq _ _ _ _ true _) => True
+  | EOther (AcctReq true true _) => True
+  | EOther (FundReq true true true _) => True
   | _ => False
   end.
